@@ -7,7 +7,8 @@
    Only property theorems; proofs are in Proofs_*.v. *)
 From Coq Require Import ZArith List Permutation Bool.
 From Core Require Import Syntax Sem.
-From Par Require Import Footprint Proofs_Footprint ParSem Proofs_Races Proofs_Perm.
+From Par Require Import Footprint Proofs_Footprint ParSem Proofs_Races Proofs_Perm Proofs_Lockstep Proofs_Frame
+  Proofs_Instance.
 Import ListNotations.
 
 (* ---- the instrumented semantics IS the shared reference semantics (sequential order) *)
@@ -28,25 +29,60 @@ Theorem C09_races_spec : forall prs, races prs = false ->
 Proof. exact races_false. Qed.
 Print Assumptions C09_races_spec.
 
+(* ---- the footprints of the instrumented semantics are SOUND for Core.Sem (full language):
+   dependence — from any state of the same shape (environment, allocation counter, block sizes) that agrees on the
+   cells the execution reads or reduces, the execution succeeds with the same trace and ends in a state of the
+   same shape in which every cell that agreed, or that the execution writes or reduces, has the same content *)
+Theorem C09_footprint_dependence : forall s ord d sub st st2 st' t,
+  sim st st2 -> exec_fp ord d sub s st = Ok (st', t) -> agree_in (fst t) st st2 ->
+  exists st2', exec_fp ord d sub s st2 = Ok (st2', t) /\ sim st' st2' /\ post_agree (fst t) st st2 st' st2'.
+Proof. exact exec_lockstep. Qed.
+Print Assumptions C09_footprint_dependence.
+
+(* frame — an execution that does not allocate (callees included) keeps the allocation counter and the shape of
+   the heap and changes only cells that it writes or reduces *)
+Theorem C09_footprint_frame : forall s ord d sub st st' t,
+  alloc_free s = true -> exec_fp ord d sub s st = Ok (st', t) ->
+  s_next st' = s_next st /\ shape (s_heap st') = shape (s_heap st) /\
+  forall c, ~ (In (KWrite, c) (fst t) \/ In (KReduce, c) (fst t)) -> get st' c = get st c.
+Proof. exact exec_frame. Qed.
+Print Assumptions C09_footprint_frame.
+
 (* ---- every execution order gives the sequential result.
-   Iterations are footprint-reporting state transformers on a memory of cells.  HYPOTHESIS (stated, not proved
-   for Core.Sem.exec; validated by execution in the harness): each iteration respects the footprint it reports
-   (changes only written/reduced cells; re-run on a memory agreeing on the cells read, it reports the same
-   footprint, writes the same values and adds the same increments).  Then: if the footprints observed in the
-   sequential execution are pairwise conflict-free (the checker finds no pair), every permutation of the
-   iterations succeeds, observes the same footprints and ends in the same memory. *)
-Theorem C09_perm : forall (V : Type) (add : V -> V -> V) (act : Z -> ev_action V),
-  (forall k, ev_respects V add (act k)) ->
-  forall its m mf evs,
-    ev_run V act its m = Some (mf, evs) ->
+   Abstract form: iterations are footprint-reporting transformers of states observed through [get], up to a shape
+   equivalence [sim]; each RESPECTS the footprint it reports (ParSem.respects: frame + determinacy).  If the
+   footprints observed in the sequential execution are pairwise conflict-free (the checker finds no pair), every
+   permutation of the iterations succeeds, observes the same footprints and ends in the same state (same shape,
+   same content of every cell). *)
+Theorem C09_perm : forall (S V : Type) (get : S -> cell -> V) (sim : S -> S -> Prop),
+  (forall s, sim s s) -> (forall s s', sim s s' -> sim s' s) ->
+  (forall s s' s'', sim s s' -> sim s' s'' -> sim s s'') ->
+  forall (act : Z -> action S (list event)),
+  (forall k, ev_respects S V get sim (act k)) ->
+  forall its s sf evs,
+    ev_run S act its s = Some (sf, evs) ->
     iters_conflict evs = None ->
     forall sigma, Permutation its sigma ->
-    exists mf' evs', ev_run V act sigma m = Some (mf', evs') /\ meq cell V mf mf' /\ Permutation evs evs'.
+    exists sf' evs', ev_run S act sigma s = Some (sf', evs') /\ ev_same S V get sim sf sf' /\ Permutation evs evs'.
 Proof. exact perm_events. Qed.
 Print Assumptions C09_perm.
 
-(* the same over Core.Sem.exec itself: the parallel meaning of a loop (ParSem.exec_par: any order of its
-   iteration values) coincides with exec's result whenever different iterations commute as state transformers *)
+(* Core.Sem instance, no hypothesis left about the iterations: for a parallel loop whose body does not allocate,
+   if the instrumented sequential execution reports no race then EVERY execution of the loop in the parallel
+   semantics (ParSem.exec_par: the iterations in any order, executed by Core.Sem) succeeds and ends, like
+   Core.Sem.exec, in a state of the same shape with the same content in every heap cell and configuration field *)
+Theorem C09_perm_core : forall d sub i lo hi body st st' t,
+  alloc_free_list body = true ->
+  exec_fp seq_order d sub (For i lo hi body true) st = Ok (st', t) ->
+  races (snd t) = false ->
+  exec (For i lo hi body true) st = Ok st' /\
+  forall r, exec_par i lo hi body st r ->
+    exists st'', r = Ok st'' /\ sim st' st'' /\ forall c, get st' c = get st'' c.
+Proof. exact par_loop_deterministic. Qed.
+Print Assumptions C09_perm_core.
+
+(* a static variant over Core.Sem.exec (any body): the parallel meaning of a loop coincides with exec's result
+   whenever different iterations commute as state transformers *)
 Theorem C09_perm_exec : forall i lo hi body st l h,
   (do vl <- eval st lo; as_int vl) = Ok l -> (do vh <- eval st hi; as_int vh) = Ok h -> (l <= h)%Z ->
   (forall a b st', (l <= a < h)%Z -> (l <= b < h)%Z -> a <> b ->
